@@ -332,6 +332,43 @@ def subject_subst(b, m):
     return out
 
 
+def default_enumerator(p):
+    """name of the enumerator a parameter defaults to (`peek peek = peek::no`), None without a (visible) default"""
+    def walk(n):
+        if isinstance(n, dict):
+            if n.get('kind') == 'DeclRefExpr' and (n.get('referencedDecl') or {}).get('kind') == 'EnumConstantDecl':
+                return n['referencedDecl'].get('name')
+            for c in n.get('inner', []) or []:
+                r = walk(c)
+                if r is not None:
+                    return r
+        return None
+    for c in p.get('inner', []) or []:
+        r = walk(c)
+        if r is not None:
+            return r
+    return None
+
+
+def check_sibling_defaults(res, prop, cm, m, single):
+    """R-SIB-DEFAULTS: a call that leaves the mode arguments out means the same for the range form and for the single-key form:
+    the `allow` / `peek` parameters of both default to the same enumerator"""
+    for enum in ('cappuccino::allow', 'cappuccino::peek'):
+        pm = [p for p in m.params if enum in (p.get('type', {}).get('qualType', '') or '')]
+        ps = [p for p in single.params if enum in (p.get('type', {}).get('qualType', '') or '')]
+        if len(pm) != 1 or len(ps) != 1:
+            continue
+        dm, ds = default_enumerator(pm[0]), default_enumerator(ps[0])
+        if dm is None or ds is None:
+            continue
+        res.ob('R-SIB-DEFAULTS', ok=dm == ds)
+        if dm != ds:
+            loc = m.loc and (m.loc[0], m.loc[1], '')
+            V(res, prop, 'R-SIB-DEFAULTS', cm, m.key(), 'default %s differs from the single-key form' % enum.split('::')[1], loc,
+              '%s defaults %s to %s::%s, %s defaults it to %s::%s: the same call without the argument means two different operations'
+              % (m.key(), pm[0].get('name'), enum.split('::')[1], dm, single.key(), enum.split('::')[1], ds))
+
+
 def rule_c18(an, res):
     prop = 'C18'
     for cm, roles in an.classes():
@@ -351,6 +388,7 @@ def rule_c18(an, res):
                 res.incomplete.append('G-ANCHOR: no single-key sibling for %s::%s' % (cm.name, m.key()))
                 continue
             single = singles[0]
+            check_sibling_defaults(res, prop, cm, m, single)
             ssum = set()
             for top in method_segments(an, cm, roles, single, res):
                 for b in ops.find_bodies(top, single):
@@ -738,6 +776,12 @@ def check_lookup(res, prop, cm, roles, m, b):
     res.ob('R-LOOKUP-PROV', ok=ok)
     if not ok:
         V(res, prop, 'R-LOOKUP-PROV', cm, b.where, 'index is consulted with something other than the call\'s key', site_of_seg(seg, m), 'looked up: %s' % show(key))
+    vs = seg.effs('VAL')
+    res.ob('R-LOOKUP-PROV', ok=not vs)
+    if vs:
+        moved = isinstance(vs[0].val, tuple) and vs[0].val and vs[0].val[0] == 'moved'
+        V(res, prop, 'R-LOOKUP-PROV', cm, b.where, 'lookup %s a stored value' % ('moves out of' if moved else 'overwrites'), vs[0].site,
+          'path [%s]: %r - later lookups of the key no longer report the value last written for it' % (val, vs[0]))
     y = outcome(b, roles)
     if y is None:
         # a range lookup whose per-element answer reaches neither the returned container nor the caller's element
@@ -752,6 +796,21 @@ def check_lookup(res, prop, cm, roles, m, b):
             print('OUTCOME?', cm.name, b.where, show(y))
         return
     L = seg.L
+    if not ops.named(m):
+        # a lookup-like operation added later (contains / touch / find_into ...): what it returns on a live hit is its own business;
+        # it must not answer "yes" / hand out a value for a key that is absent or whose entry has expired
+        served = (y == ('bool', True)) or (y[0] == 'ctor' and typeclass(y[1]) == 'optional' and len(y[2]) >= 1)
+        if present is True and cm.name in TTL_CACHES and served and found_expired(seg) is None:
+            res.ob('R-LOOKUP-PROV', ok=False)
+            V(res, prop, 'R-LOOKUP-PROV', cm, b.where, 'positive answer without establishing that the write has not expired', site_of_seg(seg, m),
+              'path [%s] yields %s but never compares the entry\'s expiry with the call\'s clock sample' % (val, show(y)))
+            return
+        dead = present is not True or (cm.name in TTL_CACHES and found_expired(seg) is True)
+        res.ob('R-LOOKUP-PROV', ok=not (dead and served))
+        if dead and served:
+            V(res, prop, 'R-LOOKUP-PROV', cm, b.where, 'positive answer for a key that is absent or expired', site_of_seg(seg, m),
+              'path [%s] yields %s' % (val, show(y)))
+        return
     if present is True:
         live = not (cm.name in TTL_CACHES and found_expired(seg) is True)
         if cm.name in TTL_CACHES and found_expired(seg) is None and y[0] == 'ctor' and y[2]:
@@ -783,10 +842,25 @@ def check_lookup(res, prop, cm, roles, m, b):
             V(res, prop, 'R-LOOKUP-PROV', cm, b.where, 'miss reports a value', site_of_seg(seg, m), 'path [%s] yields %s' % (val, show(y)))
 
 
+NEW_METHOD_VALUE = [False]      # set while a method the property texts do not name is checked: its value is whatever it builds from its arguments
+
+
 def value_param_ok(v, key):
     t = v[2] if is_ld(v) else v
     if t == ('p', 'value'):
         return True
+    if NEW_METHOD_VALUE[0]:
+        from symex import root_of
+        def from_args(x):
+            if not isinstance(x, tuple) or not x:
+                return True
+            if x[0] == 'p':
+                return True
+            if x[0] in ('fld', 'idx', 'deref', 'optval', 'ld', 'q', 'adv'):
+                r = root_of(x[2] if x[0] == 'ld' else x)
+                return r[0] not in ('field', 'this', 'heap', 'res')
+            return all(from_args(y) for y in x[1:] if isinstance(y, tuple))
+        return from_args(v)
     kl = key[2] if is_ld(key) else key
     if isinstance(t, tuple) and isinstance(kl, tuple):
         if t[0] == 'fld' and kl[0] == 'fld' and t[1] == kl[1] and t[2] == 'second' and kl[2] == 'first':
@@ -797,12 +871,22 @@ def value_param_ok(v, key):
 
 
 def check_bind_update(res, prop, cm, roles, m, b):
+    NEW_METHOD_VALUE[0] = not ops.named(m)
+    try:
+        _check_bind_update(res, prop, cm, roles, m, b)
+    finally:
+        NEW_METHOD_VALUE[0] = False
+
+
+def _check_bind_update(res, prop, cm, roles, m, b):
     seg = b.seg
     effs = ops.body_effects(b, roles)
     cls = actual_class(effs)
     key = next((c[1][0] for c in seg.conds_of('PRESENT')), None)
     val = ' '.join(seg.valuation())
     L = seg.L
+    if cls == 'UPDATE' and roles.value and not ops.named(m) and not [e for e in effs if e.kind == 'VAL']:
+        return          # an operation added later that only uses the entry it found (find_or_insert's hit): a lookup, judged by the order rules
     if cls == 'UPDATE' and roles.value:
         vs = [e for e in effs if e.kind == 'VAL']
         ok = len(vs) == 1 and vs[0].ent.kind == 'FOUND' and vs[0].ent.arg == key and value_param_ok(vs[0].val, key)
@@ -1234,6 +1318,34 @@ def check_iter_typestate(res, prop, cm, roles, m, seg):
                     if x[0] == 'call' and x[2] in ('erase', 'clear', 'pop_front', 'pop_back'):
                         erasing_loops[rel(x[1], 0)] = lp.site
                         last_erasing[rel(x[1], 0)] = loop_no
+            if lp.kind == 'range' and isinstance(lp.range, tuple):
+                # `for (auto& x : m_container)`: the loop keeps a hidden iterator into the container it walks
+                from symex import root_of
+                rr = root_of(lp.range)
+                if rr[0] == 'field':
+                    def deep(p):
+                        for x in p.trace:
+                            yield x
+                            if x[0] == 'loop':
+                                for q in x[1].iters:
+                                    yield from deep(q)
+                    for it in lp.iters:
+                        for x in deep(it):
+                            if x[0] != 'call' or not isinstance(x[1], tuple) or root_of(x[1]) != rr or rel(x[1], 0) != rel(lp.range, 0):
+                                continue
+                            tc = x[6] if len(x) > 6 else None
+                            node_based = tc in ('list', 'map', 'multimap', 'set', 'multiset')
+                            bad = x[2] in ('erase', 'clear', 'extract', 'pop_front', 'pop_back', 'resize', 'swap', 'merge') or \
+                                (not node_based and x[2] in ('insert', 'emplace', 'try_emplace', 'emplace_hint', 'emplace_back', 'push_back',
+                                                             'rehash', 'reserve', 'operator[]', 'insert_or_assign'))
+                            if bad:
+                                key = (show(lp.range), 'rangefor', x[2])
+                                res.ob('R-ITER-TS', ok=False)
+                                if key not in reported:
+                                    reported.add(key)
+                                    V(res, prop, 'R-ITER-TS', cm, where_of(m, seg), 'container changed inside the range-for that walks it', x[5],
+                                      'path [%s]: the loop at %s iterates %s and its body calls %s.%s(): the loop\'s own iterator may be the one '
+                                      'that call invalidates' % (val, show_site(lp.site), show(lp.range), show(lp.range), x[2]))
             continue
         if k == 'call' and e[2] in ('erase', 'pop_front', 'pop_back'):
             if len(e[3]) == 1:
